@@ -141,6 +141,7 @@ def predict(cfg, rng, q=None, collect=None):
     tp = triple_product_coeffs(q)
     try:
         g, coef = locals_of_rsing(q, rng)
+        g = dict((k_, np.broadcast_to(np.asarray(v_, dtype=float), (q.nphi,)).copy() if np.ndim(v_) == 0 else v_) for k_, v_ in g.items())
     except Exception:
         # the translated model of the coefficient part is not available (the translator rejected the current source): fall back on the
         # independently computed triple-product coefficients so that the reported radii can still be compared with a brute-force search
@@ -158,7 +159,7 @@ def predict(cfg, rng, q=None, collect=None):
             bad('coef:g1s', 'the omitted coefficient g1s does not vanish: %.3g' % np.max(np.abs(tp['g1s'])))
     # reported radius vs brute force (well conditioned points only)
     for j in range(0, q.nphi, max(1, q.nphi // 6)):
-        rb = brute_force_radius(g, j)
+        rb = brute_force_radius(tp, j)          # (the INDEPENDENT coefficients: the translated model's g would inherit an error of the source)
         rc = q.r_singularity_vs_varphi[j]
         n += 1
         if np.isfinite(rb) and rc < 1e99:
